@@ -8,6 +8,10 @@ INDEX = {
    {"name": "VerifH01Intersect", "common": {"max_depth": 2000}, "quick": {"bounds": {"runs": 2, "array": 2, "words": 1, "runlen": 3, "wordmask6": 1, "bases": 2, "near": 1}}},
    {"name": "VerifH01IntersectionCount", "common": {"max_depth": 2000}, "quick": {"bounds": {"runs": 2, "array": 2, "words": 1, "wordmask6": 1, "bases": 2, "near": 1}}},
    {"name": "VerifH01Difference", "common": {"max_depth": 2000}, "quick": {"bounds": {"runs": 2, "array": 2, "words": 1, "runlen": 3, "wordmask6": 1, "bases": 2, "near": 1}}},
+   {"name": "VerifH01DenseIntersect", "common": {"max_depth": 4000}, "quick": {"bounds": {"runs": 2, "words": 1, "wordmask6": 1, "bases": 2, "near": 2, "pairs": 4, "cardinality": 0}}},
+   {"name": "VerifH01DenseUnion", "common": {"max_depth": 4000}, "quick": {"bounds": {"runs": 2, "words": 1, "wordmask6": 1, "bases": 2, "near": 2, "pairs": 4, "cardinality": 0}}},
+   {"name": "VerifH01DenseDifference", "common": {"max_depth": 4000}, "quick": {"bounds": {"runs": 2, "words": 1, "wordmask6": 1, "bases": 2, "near": 2, "pairs": 1, "cardinality": 0}}},
+   {"name": "VerifH01DenseXor", "common": {"max_depth": 4000}, "quick": {"bounds": {"runs": 1, "words": 1, "wordmask6": 1, "bases": 2, "near": 2, "pairs": 3, "cardinality": 0}}},
    {"name": "VerifH01Contains", "quick": {"bounds": {"array": 3, "runs": 2, "words": 1, "bases": 2}}},
    {"name": "VerifH01Add", "quick": {"bounds": {"array": 3, "runs": 2, "words": 1, "bases": 2}}},
    {"name": "VerifH01Remove", "quick": {"bounds": {"array": 3, "runs": 2, "words": 1, "bases": 2}}},
